@@ -339,6 +339,7 @@ class SimNet:
         self.fail_next_write = False   # the next transport.write() on any connection fails
         self.events: list[tuple] = []
         self.conns: list[SimConn] = []
+        self._live: list[SimConn] = []          # connections not yet seen dead (pruned lazily: long runs open 10^5)
         self.udp_endpoints: list[SimDatagramTransport] = []
         self.dials = 0
         self.on_bytes: Optional[Callable[[SimConn], None]] = None
@@ -381,6 +382,7 @@ class SimNet:
             raise ConnectionRefusedError("simulated refusal")
         conn = SimConn(len(self.conns), self)
         self.conns.append(conn)
+        self._live.append(conn)
         protocol = protocol_factory()
         transport = SimTransport(loop, protocol, conn)
         self.event(("open", conn.cid))
@@ -391,7 +393,8 @@ class SimNet:
 
     # conveniences
     def live_conns(self) -> list[SimConn]:
-        return [c for c in self.conns if not c.client_closed and not c.lost]
+        self._live = [c for c in self._live if not c.client_closed and not c.lost]
+        return list(self._live)
 
     def current(self) -> Optional[SimConn]:
         live = self.live_conns()
